@@ -115,6 +115,10 @@ def coo_local():
         raise TranslateError('COOData.inverse: ' + repr([t2.src(s) for s in _nodoc(inv.body)]))
     return (f'Definition gen_tolocal (data : list R) (ls : list nat) := {tol} R rO data ls.\n'
             f'Definition gen_fromlocal (L : list (list (list R))) (nt n0 n1 : nat) := {frl} R rO L nt n0 n1.\n'
+            f'(* tolocal(basis=facet basis): out[basis.find] = local; np.sum(out[basis.mesh.t2f], axis=0) *)\n'
+            f'Definition gen_scatter_set (idx : list nat) (vals out : list (list (list R))) := scatter_set (list (list R)) idx vals out.\n'
+            f'Definition gen_facet_sum (zero : list (list R)) (add : list (list R) -> list (list R) -> list (list R)) (nfacets ncells : nat)\n'
+            f'    (find : list nat) (local : list (list (list R))) (t2f : list (list nat)) := facet_sum (list (list R)) zero add nfacets ncells find local t2f.\n'
             f'(* COOData.inverse = fromlocal (np.linalg.inv (tolocal ())) *)\n'
             f'Definition gen_inverse_with (inv : list (list R) -> list (list R)) (data : list R) (ls : list nat) : option (list R) :=\n'
             f'  match gen_tolocal data ls, ls with\n'
@@ -238,7 +242,7 @@ HEADER = '''(* GENERATED by vlib/c19_translate.py from coo_data.py, element_vect
    of the implementation under test — do not edit *)
 From Coq Require Import List Arith Bool.
 Import ListNotations.
-Require Import Base.C01_Sums Model.C01_Assembly Model.C19_Blocks.
+Require Import Base.C01_Sums Model.C01_Assembly Model.C19_Blocks Model.C19_Scatter.
 
 '''
 
@@ -449,7 +453,7 @@ def vector_counts():
 
 def translate_comp():
     bfun_counts()
-    return HEADER2 + deduce_bfun() + '\n\n' + split_indices() + '\n\n' + dofs_init() + '\n\n' + vector_counts() + '\n\n' + composite_basis() + '\n'
+    return HEADER2 + deduce_bfun() + '\n\n' + split_indices() + '\n\n' + dofs_init() + '\n\n' + vector_counts() + '\n\n' + composite_basis() + '\n\n' + form_block() + '\n'
 
 
 # ------------------------------------------------------------------------------------------ CompositeBasis
@@ -499,6 +503,15 @@ def composite_basis():
                    'bases.append(tuple(tmp)) self._basis = bases', 'return self._basis'])
     prop('N', ['if self.equal_dofnum: return self.bases[0].N', 'N = 0', 'for basis in self.bases: N += basis.N', 'return N'])
     prop('Nbfun', ['Nbfun = 0', 'for basis in self.bases: Nbfun += basis.Nbfun', 'return Nbfun'])
+    # shared DOFs (equal_dofnum): split / interpolate hand the whole vector to every component (N34)
+    for nm, first in (('split', 'if self.equal_dofnum: return [(x, basis) for basis in self.bases]'),
+                      ('interpolate', 'if self.equal_dofnum: return tuple((basis.interpolate(x) for basis in self.bases))')):
+        got = [_norm(t2.src(x)) for x in _nodoc(t2.find_def(tree, nm, 'CompositeBasis').body)]
+        if not got or got[0] != first:
+            raise TranslateError(f'CompositeBasis.{nm}: shared-DOF branch: ' + repr(got[:1]))
+    mm = t2.find_def(t2.parse(ABS), '__matmul__', 'AbstractBasis')
+    if 'return CompositeBasis(self, other, equal_dofnum=True)' not in [_norm(t2.src(x)) for x in _nodoc(mm.body)]:
+        raise TranslateError('AbstractBasis.__matmul__')
     return ('(* CompositeBasis: constructor checks as read from the source, tables as in Model.C19_CompBasis *)\n'
             'Section GenCB.\n  Variable R : Type.\n  Variables V VC : Type.\n  Variable inj : nat -> V -> VC.\n'
             '  Definition gen_composite_basis (b0 : basis R V) (rest : list (basis R V)) (eq : bool) : option (basis R VC) :=\n'
@@ -507,3 +520,42 @@ def composite_basis():
             '      Some (mkBasis (cb_N R V b0 bs eq) (cb_Nbfun R V bs) (bnelems b0) (bnq b0) (cb_edofs R V b0 bs eq)\n'
             "                    (fun i e q => let '(n, j) := nth i (cb_funs R V b0 bs) (0, 0) in inj n (bB (nth n bs b0) j e q))\n"
             '                    (bdx b0))\n    else None.\nEnd GenCB.')
+
+
+# ------------------------------------------------------------------------------------------ Form.block
+FRM = 'skfem/assembly/form/form.py'
+
+
+def form_block():
+    fn = t2.find_def(t2.parse(FRM), 'block', 'Form')
+    if [a.arg for a in fn.args.args] != ['self'] or fn.args.vararg is None or fn.args.vararg.arg != 'args':
+        raise TranslateError('Form.block signature')
+    st = t2.only([x for x in _nodoc(fn.body) if isinstance(x, ast.Assign) and t2.src(x.targets[0]) == 'form.form'
+                  and isinstance(x.value, ast.Lambda)], 'form.form = lambda ...')
+    lam = st.value
+    if lam.args.vararg is None or lam.args.vararg.arg != 'arg' or lam.args.args:
+        raise TranslateError('Form.block lambda arguments')
+    call = lam.body
+    if not (isinstance(call, ast.Call) and t2.src(call.func) == 'self.form' and len(call.args) == 2 and not call.keywords
+            and isinstance(call.args[0], ast.Starred) and isinstance(call.args[0].value, ast.ListComp) and t2.src(call.args[1]) == 'arg[-1]'):
+        raise TranslateError('Form.block: call of the wrapped form: ' + t2.src(call)[:200])
+    lc = call.args[0].value
+    gens = [(t2.src(g.target), _norm(t2.src(g.iter))) for g in lc.generators]
+    if gens != [('k', 'range(len(arg) - 1)'), ('j', 'range(int((self.nargs - 1) / (len(arg) - 1)))')] or any(g.ifs for g in lc.generators):
+        raise TranslateError('Form.block comprehension generators: ' + repr(gens))
+    e = lc.elt
+    if not (isinstance(e, ast.IfExp) and t2.src(e.body) == 'arg[k]' and t2.src(e.orelse) == 'arg[k].zeros()'):
+        raise TranslateError('Form.block element: ' + t2.src(e))
+    test = t2.src(e.test)
+    if test == 'args[k] == j':
+        cond = 'nth k args 0 =? j'
+    elif test == 'j == args[k]':
+        cond = 'j =? nth k args 0'
+    else:
+        raise TranslateError('Form.block slot test: ' + test)
+    return ('(* Form.block: flat argument list [ (arg[k] if args[k] == j else arg[k].zeros()) for k in (trial, test) for j in range(M) ], w *)\n'
+            'Definition gen_form_block {V W R : Type} (vzero : V -> V) (form : list V -> list V -> W -> R) (M : nat) (args : list nat)\n'
+            '    (u v : V) (w : W) : R :=\n'
+            '  let arg := [u; v] in\n'
+            f'  let flat := flat_map (fun k => map (fun j => if {cond} then nth k arg u else vzero (nth k arg u)) (seq 0 M)) (seq 0 2) in\n'
+            '  form (firstn M flat) (skipn M flat) w.')
